@@ -170,3 +170,24 @@ Fixpoint binom_run (n : Z) (steps : nat) (j : Z) (b : Z) : bool :=
 Definition binom_exact_for_degree (n : nat) : bool := binom_run (Z.of_nat n) (n - 1) 1 1.
 Definition binom_exact_upto (max_nodes : nat) : bool :=
   forallb binom_exact_for_degree (seq 1 (max_nodes - 1)).
+
+(* ---- running binomial of the TRIANGLE evaluator: binom = (binom * (k+1)) / (degree - k), k = d-1 .. 0 ---- *)
+Fixpoint tri_binom_run (d : Z) (steps : nat) (k : Z) (b : Z) (ok : Z -> bool) : bool :=
+  match steps with
+  | O => true
+  | S n => let prod := (b * (k + 1))%Z in
+           let quo := (prod / (d - k))%Z in
+           ok prod && Z.eqb (quo * (d - k)) prod && ok quo && tri_binom_run d n (k - 1) quo ok
+  end.
+(* binary64 accumulator (the Python code): every product and quotient has at most 53 significant bits *)
+Definition tri_binom_exact_double (d : nat) : bool := tri_binom_run (Z.of_nat d) d (Z.of_nat d - 1) 1 repr53.
+(* a 32-bit signed integer accumulator (integer(c_int)) : every product stays below 2^31 *)
+Definition fits_int32 (z : Z) : bool := Z.ltb z (2 ^ 31) && Z.leb (- 2 ^ 31) z.
+Definition tri_binom_exact_int32 (d : nat) : bool := tri_binom_run (Z.of_nat d) d (Z.of_nat d - 1) 1 fits_int32.
+Lemma tri_binom_double_exact_to_54 : forallb tri_binom_exact_double (seq 1 54) = true.
+Proof. vm_compute. reflexivity. Qed.
+Lemma tri_binom_int32_exact_to_29 : forallb tri_binom_exact_int32 (seq 1 29) = true.
+Proof. vm_compute. reflexivity. Qed.
+(* F4: a c_int accumulator overflows from degree 30 on *)
+Lemma tri_binom_int32_refuted : exists d, (d <= 30)%nat /\ tri_binom_exact_int32 d = false.
+Proof. exists 30%nat. split; [lia|]. vm_compute. reflexivity. Qed.
